@@ -91,6 +91,28 @@ def audit_sources(files: list[Path]) -> list[str]:
     return problems
 
 
+def check_obligations_multi(pids: list, log) -> dict:
+    """obligations of a property whose theorems are spread over several Props files (e.g. C11 + C11H)"""
+    tot = None
+    for p in pids:
+        listed = f'Props/{p}.v' in (COQ / '_CoqProject').read_text().split()
+        if p != pids[0] and not listed:
+            continue                     # an extension file that is not part of the development (yet)
+        r = check_obligations(p, log)
+        if tot is None:
+            tot = r
+        else:
+            for k in ('obligations', 'discharged'):
+                tot[k] += r[k]
+            for k in ('theorems', 'problems'):
+                tot[k] += r[k]
+            tot['axioms'] = sorted(set(tot['axioms']) | set(r['axioms']))
+            tot['checker_cmd'] += ' ; ' + r['checker_cmd']
+    if tot['problems']:
+        tot['discharged'] = 0
+    return tot
+
+
 def check_obligations(pid: str, log) -> dict:
     """Build Props/<pid>.vo and everything it depends on, audit, and read back Print Assumptions.
     Returns {'obligations', 'discharged', 'theorems', 'axioms', 'problems', 'checker_cmd'}."""
